@@ -6,7 +6,7 @@ from ..paths import loop_system, PathView, fn_paths, contradictory
 from ..describe import describe
 from .. import lemmas
 from .common import configs_for
-from .util import Rule, guarded, site_of_block
+from .util import Rule, guarded, site_of_block, check_visits_all
 from . import models
 
 TITLE = "Existing line breaks are kept and paragraphs wrap independently"
@@ -166,6 +166,7 @@ def _every_path_pushes(prog, rep):
     rw = Rule(rep, "C09.R2", WRAP, site=wb.span)
     if len(wl) == 1:
         cnts = []
+        check_visits_all(r, wb, wl[0], "wrap's paragraph loop")
         for tr in loop_system(prog, wb, wl[0], [], [wroot]):
             if tr.kind == "back":
                 cnts.append(len([1 for (_b, n, _a, _r) in tr.events if n in FORWARD]))
@@ -215,6 +216,7 @@ def _join(prog, rep):
     line = fi.element
     ending = ("call", "crate::line_ending::LineEnding::as_str", (("field", OPT, "line_ending"),))
     cases = set()
+    check_visits_all(r, body, lm, "the join loop of fill_slow_path")
     for tr in loop_system(prog, body, lm, [], [res]):
         if tr.kind != "back":
             continue
